@@ -115,6 +115,7 @@ func (t *ATable) AddSeparator() Table {
 	t.rows = append(t.rows, sep)
 	sep.inTable = t
 	sep.rowNum = len(t.rows)
+	sep.ErrorContainer = t.ErrorContainer
 	return t
 }
 
